@@ -619,7 +619,7 @@ class BoundaryObserver:
         for rel, data in files.items():
             parts = rel.split("/")
             base = parts[-1]
-            if len(parts) >= 2 and parts[1] == "tmp":
+            if len(parts) >= 3 and parts[0] in ("objects", "metadata", "refs") and probe.staging_name(parts[1]):
                 continue
             if base.endswith("_delete") or rel in ("hashstore.yaml", "python_client.log"):
                 continue
